@@ -125,6 +125,53 @@ theorem host_trusted_sound_translated (idna : Dbg.Idna) (host : Option (List Cha
       exact ⟨hst, hn, rfl, fun he => hne (by rw [he]), by rw [strip_port_eq]; exact hi,
         Dbg.matchRefs_sound idna hn trusted h⟩
 
+/-- `get_host(scheme, host_header, server, trusted_hosts)`, as translated from the current source
+(Host header or `server` with IPv6 bracketing and port, default-port stripping for http/ws and
+https/wss, the `host_is_trusted` check raising `SecurityError`), returns exactly the model's
+`getHost` - in particular `host[0]` never raises - for every IDNA function, scheme, Host header,
+server address (port a natural number or `None`) and trusted list (or `None`). -/
+theorem get_host_eq (idna : Dbg.Idna) (scheme : List Char) (hostHeader : Option (List Char))
+    (server : Option (List Char × Option Nat)) (trusted : Option (List (List Char))) :
+    Gen.PyFns_Host.get_host idna scheme hostHeader
+        (server.map fun np => (np.1, np.2.map Int.ofNat)) trusted
+      = Dbg.getHost idna scheme hostHeader server trusted := by
+  unfold Gen.PyFns_Host.get_host
+  cases trusted with
+  | none =>
+    rw [getHost_none]
+    simp only [tail_none]
+    cases hostHeader with
+    | some h => rfl
+    | none =>
+      cases server with
+      | none => rfl
+      | some np =>
+        obtain ⟨name, port⟩ := np
+        simp only [Option.map_some, hostText, contains_singleton]
+        cases name with
+        | nil => cases port <;> simp [strOfInt_nat]
+        | cons x t =>
+          rw [getItemStr_zero_cons]
+          by_cases hm : ':' ∈ x :: t <;> by_cases hx : x = '[' <;> cases port <;>
+            simp_all [strOfInt_nat]
+  | some tl =>
+    rw [getHost_some]
+    simp only [host_is_trusted_eq, tail_some]
+    cases hostHeader with
+    | some h => rfl
+    | none =>
+      cases server with
+      | none => rfl
+      | some np =>
+        obtain ⟨name, port⟩ := np
+        simp only [Option.map_some, hostText, contains_singleton]
+        cases name with
+        | nil => cases port <;> simp [strOfInt_nat]
+        | cons x t =>
+          rw [getItemStr_zero_cons]
+          by_cases hm : ':' ∈ x :: t <;> by_cases hx : x = '[' <;> cases port <;>
+            simp_all [strOfInt_nat]
+
 example : Gen.PyFns_Host.host_is_trusted Dbg.asciiIdna (some "a.example.org:80".toList)
     [".example.org".toList] = true := by decide
 
